@@ -1,8 +1,10 @@
 """Definition-level specifications for event synchronisation (ES), event coincidence analysis
 (ECA) and threshold event extraction, used by bounded/c16.py.
 
-Everything is evaluated on *sets of event times* in exact rational arithmetic
-(fractions.Fraction) by quantifier-style loops over events; no index slicing, no broadcasting.
+Everything is evaluated on *sets of event times* in exact rational arithmetic by quantifier-style
+loops over events; no index slicing, no broadcasting.  Times, lag and taumax may be passed as
+fractions.Fraction or, equivalently, as Python integers in one fixed unit (numerators over a
+common denominator) - only +, -, comparisons and one multiplication by 2 are applied to them.
 
 Conventions (taken from the docstrings / comments of pyunicorn.eventseries.EventSeries and from
 [Quiroga2002], [Odenweller2020]; stated here because the harness asserts exactly these):
@@ -36,20 +38,25 @@ import math
 # ---------------------------------------------------------------------------------- ES
 
 def es_counts(tx, ty, taumax=None, lag=0):
-    """tx, ty: strictly increasing lists of Fractions.  taumax None = unbounded.
+    """tx, ty: strictly increasing lists of exact numbers.  taumax None = unbounded.
     Returns None (undefined) or (c_xy, c_yx, norm2) with Q = c / sqrt(norm2)."""
     ty = [t + lag for t in ty]
     lx, ly = len(tx), len(ty)
     if lx < 3 or ly < 3:
         return None
 
-    def tau(i, j):
-        v = min(tx[i + 1] - tx[i], tx[i] - tx[i - 1], ty[j + 1] - ty[j], ty[j] - ty[j - 1]) / 2
-        return v if taumax is None else min(v, taumax)
+    def within_delay(d, i, j):
+        """0 < d <= tau_ij, written without division so that the times may be given either as
+        Fractions or as integers in a fixed unit (numerators over a common denominator):
+        d <= min(gaps)/2 and d <= taumax."""
+        if not d > 0:
+            return False
+        gaps = min(tx[i + 1] - tx[i], tx[i] - tx[i - 1], ty[j + 1] - ty[j], ty[j] - ty[j - 1])
+        return 2 * d <= gaps and (taumax is None or d <= taumax)
 
     inner = [(i, j) for i in range(1, lx - 1) for j in range(1, ly - 1)]
-    x_after_y = [(i, j) for (i, j) in inner if 0 < tx[i] - ty[j] <= tau(i, j)]
-    y_after_x = [(i, j) for (i, j) in inner if 0 < ty[j] - tx[i] <= tau(i, j)]
+    x_after_y = [(i, j) for (i, j) in inner if within_delay(tx[i] - ty[j], i, j)]
+    y_after_x = [(i, j) for (i, j) in inner if within_delay(ty[j] - tx[i], i, j)]
     simultaneous = [(i, j) for (i, j) in inner if tx[i] == ty[j]]
 
     def count(pairs, opposite):
